@@ -50,11 +50,17 @@ type Repo struct {
 	Files   []RFile
 	Targets []*RTarget // topologically ordered: a target only refers to earlier ones
 	Config  string     `json:",omitempty"` // extra .plzconfig text
+	// BrokenPkgs lists packages whose BUILD file gets a syntax error appended (fault injection, C05).
+	BrokenPkgs []string `json:",omitempty"`
+	// Subinclude makes every package subinclude //defs:defs and define its genrules through the
+	// wrapper function declared there (targets are then only discovered after the subinclude is built).
+	Subinclude bool `json:",omitempty"`
 }
 
 // Clone deep-copies the repository model.
 func (r *Repo) Clone() *Repo {
-	c := &Repo{Pkgs: append([]string{}, r.Pkgs...), Files: append([]RFile{}, r.Files...), Config: r.Config}
+	c := &Repo{Pkgs: append([]string{}, r.Pkgs...), Files: append([]RFile{}, r.Files...), Config: r.Config,
+		BrokenPkgs: append([]string{}, r.BrokenPkgs...), Subinclude: r.Subinclude}
 	for _, t := range r.Targets {
 		tt := *t
 		tt.Srcs = append([]RSrc{}, t.Srcs...)
@@ -232,16 +238,9 @@ func stripComments(d string) string {
 // dependency) has Fail set, i.e. cannot be built.
 func (r *Repo) Eval() (outs map[string][]OutEnt, ok map[string]bool) {
 	outs = map[string][]OutEnt{}
-	ok = map[string]bool{}
+	ok = r.Buildable()
 	for _, t := range r.Targets {
-		good := !t.Fail
-		for _, d := range t.Deps() {
-			if !ok[d] {
-				good = false
-			}
-		}
-		ok[t.Label()] = good
-		if !good {
+		if !ok[t.Label()] {
 			continue
 		}
 		switch t.Kind {
@@ -303,6 +302,75 @@ func (r *Repo) Eval() (outs map[string][]OutEnt, ok map[string]bool) {
 		}
 	}
 	return outs, ok
+}
+
+// Buildable computes, per target, whether it can be built: its command does not fail, its package
+// parses, every label it refers to exists and is buildable, and it is not on (or behind) a cycle.
+func (r *Repo) Buildable() map[string]bool {
+	broken := map[string]bool{}
+	for _, p := range r.BrokenPkgs {
+		broken[p] = true
+	}
+	for _, t := range r.Targets {
+		for _, d := range t.Deps() {
+			if d == t.Label() {
+				// plz rejects a self-dependency while parsing ("Attempted to add X as a dependency of
+				// itself"), which fails the whole package like a syntax error does
+				broken[t.Pkg] = true
+			}
+		}
+	}
+	state := map[string]int{} // 0 unvisited, 1 visiting, 2 good, 3 bad
+	var visit func(l string) bool
+	visit = func(l string) bool {
+		switch state[l] {
+		case 1:
+			return false // cycle
+		case 2:
+			return true
+		case 3:
+			return false
+		}
+		t := r.Target(l)
+		if t == nil {
+			state[l] = 3
+			return false
+		}
+		state[l] = 1
+		good := !t.Fail && !broken[t.Pkg]
+		for _, d := range t.Deps() {
+			if !visit(d) {
+				good = false
+			}
+		}
+		if good {
+			state[l] = 2
+		} else {
+			state[l] = 3
+		}
+		return good
+	}
+	ok := map[string]bool{}
+	for _, t := range r.Targets {
+		ok[t.Label()] = visit(t.Label())
+	}
+	// a node first reached while its cycle partner was "visiting" may have been marked good too early
+	// only if it is not itself on the cycle – re-run until stable to be safe
+	for changed := true; changed; {
+		changed = false
+		for _, t := range r.Targets {
+			if !ok[t.Label()] {
+				continue
+			}
+			for _, d := range t.Deps() {
+				if !ok[d] {
+					ok[t.Label()] = false
+					changed = true
+				}
+			}
+		}
+	}
+	return ok
 }
 
 // ---- rendering -------------------------------------------------------------------------------
@@ -378,15 +446,27 @@ func (r *Repo) RenderTarget(t *RTarget) string {
 	case "filegroup":
 		return fmt.Sprintf("filegroup(name=%s, srcs=%s, visibility=[\"PUBLIC\"]%s)\n", PyQuote(t.Name), srcExpr, t.Extra)
 	}
-	return fmt.Sprintf("genrule(name=%s, srcs=%s, outs=%s, cmd=%s, visibility=[\"PUBLIC\"]%s)\n", PyQuote(t.Name), srcExpr, pyList(t.Outs), PyQuote(t.ShellCmd()), t.Extra)
+	fn := "genrule"
+	if r.Subinclude {
+		fn = "vgenrule"
+	}
+	return fmt.Sprintf(fn+"(name=%s, srcs=%s, outs=%s, cmd=%s, visibility=[\"PUBLIC\"]%s)\n", PyQuote(t.Name), srcExpr, pyList(t.Outs), PyQuote(t.ShellCmd()), t.Extra)
 }
 
 // RenderBuild renders the BUILD file of a package.
 func (r *Repo) RenderBuild(pkg string) string {
 	var b strings.Builder
+	if r.Subinclude {
+		b.WriteString("subinclude(\"//defs:defs\")\n")
+	}
 	for _, t := range r.Targets {
 		if t.Pkg == pkg {
 			b.WriteString(r.RenderTarget(t))
+		}
+	}
+	for _, p := range r.BrokenPkgs {
+		if p == pkg {
+			b.WriteString("this is ( not valid\n")
 		}
 	}
 	return b.String()
@@ -400,6 +480,10 @@ func (r *Repo) TreeFiles() map[string]string {
 	}
 	for _, f := range r.Files {
 		m[filepath.Join(f.Pkg, f.Path)] = f.Content
+	}
+	if r.Subinclude {
+		m["defs/BUILD"] = "filegroup(name=\"defs\", srcs=[\"defs.build_defs\"], visibility=[\"PUBLIC\"])\n"
+		m["defs/defs.build_defs"] = "def vgenrule(name:str, srcs:list, outs:list, cmd:str, visibility:list):\n    return genrule(name=name, srcs=srcs, outs=outs, cmd=cmd, visibility=visibility)\n"
 	}
 	return m
 }
